@@ -34,7 +34,10 @@ type primaryGC struct {
 	reclaimed   int64
 }
 
-type UpdateIndexFunc func([]byte, types.Block) error
+// UpdateIndexFunc re-points the index entry of a key from the old location of
+// a relocated record to its new location. It must fail, without changing the
+// index, if the index does not refer to the old location.
+type UpdateIndexFunc func(key []byte, oldLocation, newLocation types.Block) error
 
 func newGC(primary *MultihashPrimary, freeList *freelist.FreeList, interval, timeLimit time.Duration, updateIndex UpdateIndexFunc) *primaryGC {
 	gc := &primaryGC{
@@ -346,8 +349,10 @@ func (gc *primaryGC) reapRecords(fileNum uint32, lowUsePercent int64) (bool, err
 				return false, fmt.Errorf("cannot put new primary record: %w", err)
 			}
 			verifhook.At("primary.gc.reloc.put")
-			// Update the index with the new primary location.
-			if err = gc.updateIndex(indexKey, fileOffset); err != nil {
+			// Update the index with the new primary location, unless the
+			// record being moved is no longer the one the index refers to.
+			oldOffset := types.Block{Size: types.Size(busySize), Offset: absolutePrimaryPos(types.Position(busyAt), fileNum, gc.primary.maxFileSize)}
+			if err = gc.updateIndex(indexKey, oldOffset, fileOffset); err != nil {
 				log.Errorw("Cannot update index with new record location", "err", err)
 				// Failed to index the moved record, most likely because the
 				// key was not found in the index. The moved record is
